@@ -81,6 +81,10 @@ fn main() {
         c04::hunt_noninv(args[2].parse().unwrap(), args[3].parse().unwrap(), args[4].parse().unwrap());
         return;
     }
+    if args[1] == "hunt-greedy" {
+        c15::hunt_greedy(args[2].parse().unwrap(), args[3].parse().unwrap(), args[4].parse().unwrap());
+        return;
+    }
     if args[1] == "hunt-d7" {
         c15::hunt_d7(args[2].parse().unwrap(), args[3].parse().unwrap(), args[4].parse().unwrap());
         return;
